@@ -141,14 +141,27 @@ def _validate_uf(trace, tag):
     return (v[0] if v else []), r
 
 
-def _uf_case_events(trace, case):
-    evs, cur = [], None
+def _uf_case_events(trace, cases):
+    """events of the given cases (one pass over the trace)"""
+    want, out, cur = set(cases), collections.defaultdict(list), None
     for e in vlib.read_ndjson(trace):
         if e.get("e") == "reset":
             cur = e.get("case")
-        if cur == case and e.get("e") != "eof":
-            evs.append(e)
-    return evs
+        if cur in want and e.get("e") != "eof":
+            out[cur].append(e)
+    return out
+
+
+def _uf_report(r4, viol, trace, what):
+    """at most two witnesses per rule carry their events; the rest is only counted"""
+    first = collections.defaultdict(list)
+    for case, rule in viol:
+        if len(first[rule]) < 2:
+            first[rule].append(case)
+    evs = _uf_case_events(trace, [c for cs in first.values() for c in cs]) if viol else {}
+    for case, rule in viol:
+        r4.violation("uf/" + rule, "union-find rule %s broken in %s %s" % (rule, what, case),
+                     {"kind": "uf", "events": evs.get(case, [])})
 
 
 def _trivial(v):
@@ -192,7 +205,7 @@ def _account(res, events, summ, label):
 def _sample(res, events, label):
     want = {pid: 2 for pid in PROPS}
     step = max(1, len(events) // 400)
-    for ln in events[len(events) // 3::step]:
+    for ln in events[len(events) // 3::step] + events[:len(events) // 3:step]:
         ev = json.loads(ln)
         if any(_trivial(ev.get(k)) for k in ("a", "b") if k in ev):
             continue
@@ -262,8 +275,10 @@ def _job_uf(exe, d, thorough):
         cs = vlib.printed_json(r, "CASE")
         if len(cs) < 500:
             raise vlib.ToolError("UnionFindImpl (%s) printed only %d behaviours" % (name, len(cs)))
-        if name == "t3":
+        if name == "t3":    # all 1-call and all from-empty behaviours, every third 2-call malformed one
             cs = [c for i, c in enumerate(cs) if len(c["ops"]) <= 1 or not c["init"] or i % 3 == 0]
+        if name == "t4":    # 4 items: every second behaviour is replayed (all are model checked)
+            cs = cs[::2]
         return ("UnionFindImpl exhaustive+emit (items=%d; from empty map: calls<=%d; arbitrary parent maps: calls<=%d)" % (items, wf, mal), r), cs
 
     jobs, cases = [], []
@@ -292,20 +307,10 @@ def _job_uf(exe, d, thorough):
     for e in revs:
         if e.get("e") == "reset":
             e["case"] += 1000000
-    canary, on = [], False
-    for e in evs:
-        if e.get("e") == "reset":
-            if on:
-                break
-            on = False
-            canary = [dict(e, case=-1)]
-        elif canary:
-            canary.append(dict(e))
-            if e.get("e") == "same" and e["a"] != e["b"] and not on:
-                canary[-1]["ret"] = 1 - e["ret"]
-                on = True
-    if not on:
-        raise vlib.ToolError("canary: no `same` call found to corrupt")
+    # canary (case -1): a good history whose last `same` answer is flipped (fixed, independent of the code)
+    canary = [{"e": "reset", "case": -1, "rep": "canary", "init": []},
+              {"e": "union", "a": 0, "b": 1, "ret": 1, "par": [[1, 0]]},
+              {"e": "same", "a": 0, "b": 2, "ret": 1, "par": [[1, 0]]}]
     combined = os.path.join(d, "uf_all_trace.ndjson")
     vlib.write_ndjson(combined, evs + revs + canary + [{"e": "eof"}])
     allviol, r = _validate_uf(combined, "uf_tv")
@@ -320,43 +325,29 @@ def _job_uf(exe, d, thorough):
 # ----------------------------------------------------------------------------------------------
 # canaries
 # ----------------------------------------------------------------------------------------------
+# Fixed canary events: copies of good recorded events with ONE field corrupted (independent of
+# the code under test, so a broken tree cannot make them pass by accident).  LatticeTrace must
+# flag each with the named rule, otherwise the binding is not checking anything (tool error).
+_CANARY = [
+    ({"op": "merge", "ty": "map_set", "a": [[1, [0]]], "b": [[2, [1]]],
+      "g": [{"r": [[1, [0]], [2, [1]]], "flag": 0, "ro": [[1, [0]], [2, [1]]], "reps": ["canary"]}]}, "merge/flag"),
+    ({"op": "merge", "ty": "set", "a": [0], "b": [1, 2],
+      "g": [{"r": [0, 1], "flag": 1, "ro": [0, 1, 2], "reps": ["canary"]}]}, "merge/result"),
+    ({"op": "cmp", "ty": "map_max", "a": [[1, 1]], "b": [[1, 255]],
+      "g": [{"c": 1, "eq": 0, "bits": 19, "reps": ["canary"]}]}, "partial_cmp/result"),
+    ({"op": "un", "ty": "wb_set", "a": [[]], "g": [{"bot": 0, "top": 0, "reps": ["canary"]}]}, "is_bot/result"),
+    ({"op": "atoms", "ty": "map_set", "a": [[1, [0, 1]]],
+      "g": [{"atoms": [[[1, [0]]]], "abot": [0], "re": [[1, [0, 1]]], "eqre": 1, "reps": ["canary"]}]}, "atomize/atoms-do-not-rejoin"),
+    ({"op": "assoc", "ty": "struct3", "a": [[0], 0, []], "b": [[1], 1, [0]], "c": [[], 0, [1]],
+      "g": [{"l": [[0, 1], 1, [1]], "r": [[0, 1], 1, [1]], "eq": 0, "reps": ["canary"]}]}, "associative/eq"),
+    ({"op": "bimo", "ty": "cart", "side": "L", "a": [0], "d": [1], "b": [0],
+      "g": [{"o1": [[0, 0]], "o2": [[0, 0], [1, 0]], "eq": 0, "reps": ["canary"]}]}, "distributes/value"),
+    ({"op": "from", "ty": "vec_set", "a": [[0], [1]], "g": [{"r": [[0]], "reps": ["canary"]}]}, "lattice_from/result"),
+]
+
+
 def _canary_events(events):
-    """Corrupt one field of good recorded events; the trace spec must flag each corruption."""
-    want, out = [], []
-
-    def find(op, pred=lambda e: True):
-        for ln in events:
-            if '"op":"%s"' % op in ln:
-                e = json.loads(ln)
-                if len(e["g"]) == 1 and "panic" not in e["g"][0] and pred(e):
-                    return e
-        raise vlib.ToolError("canary: no recorded %s event to corrupt" % op)
-
-    e = find("merge", lambda e: e["ty"] == "map_set" and e["g"][0]["flag"] == 1)
-    e["g"][0]["flag"] = 0
-    out.append(e); want.append("merge/flag")
-    e = find("merge", lambda e: e["ty"] == "set" and len(e["g"][0]["r"]) >= 2)
-    e["g"][0]["r"] = e["g"][0]["r"][1:]
-    out.append(e); want.append("merge/result")
-    e = find("cmp", lambda e: e["ty"] == "map_max" and e["g"][0]["c"] == -1)
-    e["g"][0]["c"] = 1
-    out.append(e); want.append("partial_cmp/result")
-    e = find("un", lambda e: e["ty"] == "wb_set" and e["g"][0]["bot"] == 1)
-    e["g"][0]["bot"] = 0
-    out.append(e); want.append("is_bot/result")
-    e = find("atoms", lambda e: e["ty"] == "map_set" and len(e["g"][0]["atoms"]) >= 2)
-    e["g"][0]["atoms"] = e["g"][0]["atoms"][1:]
-    out.append(e); want.append("atomize/atoms-do-not-rejoin")
-    e = find("assoc", lambda e: e["ty"] == "struct3")
-    e["g"][0]["eq"] = 0
-    out.append(e); want.append("associative/eq")
-    e = find("bimo", lambda e: e["ty"] == "cart" and len(e["g"][0]["o1"]) >= 2)
-    e["g"][0]["o1"] = e["g"][0]["o1"][1:]
-    out.append(e); want.append("distributes/value")
-    e = find("from", lambda e: e["ty"] == "vec_set" and len(e["g"][0]["r"]) >= 1)
-    e["g"][0]["r"] = e["g"][0]["r"][:-1]
-    out.append(e); want.append("lattice_from/result")
-    return [json.dumps(e, separators=(",", ":")) + "\n" for e in out], want
+    return [json.dumps(e, separators=(",", ":")) + "\n" for e, _ in _CANARY], [w for _, w in _CANARY]
 
 
 # ----------------------------------------------------------------------------------------------
@@ -433,12 +424,8 @@ def run(tier):
     r4.samples.append({"kind": "union-find behaviour on an arbitrary parent map", **[c for c in uf_cases if c["init"]][-7]})
     for dr in uf_summ["drift"][:10]:
         r4.drift.append({"kind": "call result / parent pointers differ from UnionFindImpl", **dr})
-    for case, rule in uf_viol:
-        r4.violation("uf/" + rule, "union-find rule %s broken in replayed behaviour %s" % (rule, case),
-                     {"kind": "uf", "events": _uf_case_events(uf_trace, case)})
-    for case, rule in uf_rviol:
-        r4.violation("uf/" + rule, "union-find rule %s broken in random history %s" % (rule, case),
-                     {"kind": "uf", "events": _uf_case_events(uf_rtrace, case)})
+    _uf_report(r4, uf_viol, uf_trace, "replayed behaviour")
+    _uf_report(r4, uf_rviol, uf_rtrace, "random history")
     r4.extra["union_find"] = {"behaviours_from_TLC": len(uf_cases), "runs_on_backing_maps": uf_summ["cases"],
                               "calls": uf_summ["calls"], "diverged_calls": uf_summ["diverged"],
                               "random_histories": uf_rsumm["cases"], "random_calls": uf_rsumm["calls"]}
